@@ -136,7 +136,7 @@ func run(tier string, sh *vkit.Shard, p *vkit.Part) {
 			return
 		}
 		if len(vs) == 0 {
-			if m.Body >= 65536 {
+			if m.Body >= 65536 && !n.Partial {
 				p.Sample(map[string]interface{}{"program": n.Prog.String(), "wire_bytes": len(r.Wire), "conn_writes": r.Writes, "verdict": "ok"})
 			}
 			return
@@ -169,6 +169,7 @@ func run(tier string, sh *vkit.Shard, p *vkit.Part) {
 		p.Count(fmt.Sprintf("write_landed_buffer_exactly_at_%d", t), c)
 	}
 	p.Count("write_target_missed", x.Missed)
+	p.Count("write_target_unreachable_from_state(skipped)", x.Unreachable)
 	if clusters != nil {
 		f, _ := os.OpenFile(fmt.Sprintf("%s.%d", os.Getenv("VERIF_C09_CLUSTERS"), sh.I), os.O_CREATE|os.O_TRUNC|os.O_WRONLY, 0o644)
 		var sigs []string
